@@ -2,12 +2,16 @@
 
 B1: TLC (spec/OpsCases.tla, cfg MC_OpsCases_v_*) enumerates per operation (parameters, argument types) over all 11
 scalar types, shapes of rank <= 3 over {1,2,3} plus rank 4 over {1,2}, keeps the cases CCTyping!OpType accepts.
+Packing families (OpsCases!Pack*): Stack / Concatenate / VectorToArray / ArrayToVector / Get without broadcasting over
+1..9 and 16 pieces of 1..16 cells -- for bits every combination of "piece is / is not a whole number of bytes" with
+"result is / is not a whole number of bytes" (bit cases exhaustively, the other scalar types sampled).
 The harness (bin ops eval) builds the one-node graph with the real add_node, evaluates it with SimpleEvaluator on
   - all values of bit arguments of <= 6 cells,
   - opaque tokens for structural operations (the harness substitutes extreme values of the scalar type, including
     values >= 2^64 and negative 128-bit values, and maps the result back),
   - exact values for arithmetic: residues for u8/i8, base-256 limbs (spec/BigMod.tla) for every wider type.
-B2: TLC (spec/OpsTrace.tla) recomputes CCOps!OpEval for every recorded case and decides equality.
+B2: TLC (spec/OpsTrace.tla) recomputes CCOps!OpEval for every recorded case and decides equality, and decides that the
+byte layout of every produced value is the layout of the node's type (OpsTrace!ShapeOK, packed bits included).
 """
 import json, os
 from collections import Counter
@@ -21,6 +25,8 @@ def classify(r):
         return {"op": r["rec"]["op"], "st": r["st"], "class": "panic", "location": r.get("loc", "")}
     if r["res"] == "illtyped":
         return {"op": r["rec"]["op"], "st": r["st"], "class": "ill-typed value"}
+    if r["res"] == "value" and r.get("chk") is False:
+        return {"op": r["rec"]["op"], "st": r["st"], "class": "value does not have the byte layout of its type"}
     cls = "wrong value" if r["res"] == "value" else "wrong outcome (%s)" % r["res"]
     if r["mode"] == "tok" and r["st"] in ("u128", "i128") and any(v >= 2 ** 64 for v in oc.flat_ints(r.get("exact", []))):
         # a structural operation returned an element that is none of / not the right one of its input elements
